@@ -243,3 +243,45 @@ func vxH_C03_shapes() {
 	read("final")
 	c.Close()
 }
+
+func init() { vxRegister("vxH_C03_deferred", vxH_C03_deferred) }
+
+// vxH_C03_deferred: with DeferredSort, two batches that were added out of
+// key order sit unsorted in the top section when the merger starts; two
+// readers take snapshots meanwhile. Both batches had returned, so every
+// snapshot shows the second batch completely (marker and payloads), under
+// every schedule with a bounded number of pre-emptions - a reader must not
+// search a segment that somebody else is still sorting.
+func vxH_C03_deferred() {
+	ci, err := NewCollection(CollectionOptions{DeferredSort: true})
+	vxAssert("new-ok", err == nil)
+	c := ci.(*collection)
+	var salt [3]uint8
+	for n := 1; n <= 2; n++ {
+		salt[n] = vxU8()
+		b, berr := c.NewBatch(3, 16)
+		vxAssert("newbatch-ok", berr == nil)
+		b.Set([]byte{'p'}, []byte{byte(n), salt[n]})
+		b.Set([]byte{'z'}, []byte{byte(n), salt[n]})
+		b.Set([]byte{'m'}, []byte{byte(n)})
+		vxAssert("executebatch-ok", c.ExecuteBatch(b, WriteOptions{}) == nil)
+	}
+	c.Start()
+	var wg sync.WaitGroup
+	for r := 0; r < 2; r++ {
+		wg.Add(1)
+		go func() {
+			defer wg.Done()
+			snap, serr := c.Snapshot()
+			vxAssert("snapshot-ok", serr == nil)
+			mv, _ := snap.Get([]byte{'m'}, ReadOptions{})
+			pv, _ := snap.Get([]byte{'p'}, ReadOptions{})
+			zv, _ := snap.Get([]byte{'z'}, ReadOptions{})
+			snap.Close()
+			vxAssert("returned-batch-is-visible", mv != nil && mv[0] == 2)
+			vxAssert("whole-batch-visible", pv != nil && pv[0] == 2 && pv[1] == salt[2] && zv != nil && zv[0] == 2 && zv[1] == salt[2])
+		}()
+	}
+	wg.Wait()
+	c.Close()
+}
